@@ -1401,21 +1401,7 @@ impl JsValue {
     /// Converts a value to a 16-bit floating point.
     #[cfg(feature = "float16")]
     pub fn to_f16(&self, context: &mut Context) -> JsResult<float16::f16> {
-        self.to_number(context).map(|number| {
-            // `float16::f16::from_f64` rounds twice on x86 (f64 -> f32 -> f16), which is wrong when the
-            // intermediate `f32` lands exactly on an `f16` tie. Narrow to `f32` with "round to odd"
-            // (truncate toward zero, then make the last bit sticky): 24 bits of intermediate precision
-            // are enough for the final round-to-nearest-even to 11 bits to be correctly rounded.
-            let mut narrowed = number as f32;
-            if !number.is_nan() && f64::from(narrowed) != number {
-                let mut bits = narrowed.to_bits();
-                if f64::from(narrowed).abs() > number.abs() {
-                    bits -= 1;
-                }
-                narrowed = f32::from_bits(bits | 1);
-            }
-            float16::f16::from_f32(narrowed)
-        })
+        self.to_number(context).map(f64_to_f16)
     }
 
     /// Converts a value to a 32 bit floating point.
@@ -1740,4 +1726,22 @@ impl From<Numeric> for JsValue {
             Numeric::BigInt(bigint) => Self::new(bigint),
         }
     }
+}
+
+/// Converts a Number to IEEE 754-2019 binary16 with a single rounding (roundTiesToEven).
+#[cfg(feature = "float16")]
+pub(crate) fn f64_to_f16(number: f64) -> float16::f16 {
+    // `float16::f16::from_f64` rounds twice on x86 (f64 -> f32 -> f16), which is wrong when the
+    // intermediate `f32` lands exactly on an `f16` tie. Narrow to `f32` with "round to odd"
+    // (truncate toward zero, then make the last bit sticky): 24 bits of intermediate precision
+    // are enough for the final round-to-nearest-even to 11 bits to be correctly rounded.
+    let mut narrowed = number as f32;
+    if !number.is_nan() && f64::from(narrowed) != number {
+        let mut bits = narrowed.to_bits();
+        if f64::from(narrowed).abs() > number.abs() {
+            bits -= 1;
+        }
+        narrowed = f32::from_bits(bits | 1);
+    }
+    float16::f16::from_f32(narrowed)
 }
